@@ -45,3 +45,46 @@ def rule_unbound(ctx: Ctx, rule: str, scopes: Iterable[Scope], what: str) -> Non
     if not bad:
         ctx.holds(rule, f'{len(seen)} function(s): every local is assigned on every feasible path to each of its reads '
                         f'({n_reads} candidate read(s) examined path-sensitively)', f'{next(iter(scopes)).unit.rel}:1', examined=max(1, n_reads))
+
+
+def exception_escapes(g, edge, _seen=None) -> bool:
+    """Does the exception travelling along *edge* itself leave the function?  It is followed outwards through cleanup
+    blocks (finally / with exits, which hand it on at their `cleanup_end`) and through handlers that re-raise it (a bare
+    `raise`, or `raise e` of the handler's own name); a handler that does not re-raise ends it - whatever is raised later
+    is another exception."""
+    import ast
+    seen = _seen if _seen is not None else set()
+    if id(edge) in seen:
+        return False
+    seen.add(id(edge))
+    d = edge.dst
+    if d is g.raise_exit:
+        return True
+    if d.kind == 'except':
+        h = d.ast if isinstance(d.ast, ast.ExceptHandler) else None
+        if h is None:
+            return False
+        inside = {id(x) for x in ast.walk(h)}
+        for n in g.nodes:
+            if n.kind == 'raise' and isinstance(n.ast, ast.Raise) and id(n.ast) in inside:
+                again = n.ast.exc is None or (isinstance(n.ast.exc, ast.Name) and n.ast.exc.id == h.name)
+                if again and any(exception_escapes(g, e, seen) for e in g.succ[n.id] if e.label == 'exc'):
+                    return True
+        return False
+    # a cleanup clone entered on the exception path: it ends in a cleanup_end that dispatches the exception further
+    stack, visited = [d], set()
+    while stack:
+        n = stack.pop()
+        if n.id in visited:
+            continue
+        visited.add(n.id)
+        if n.kind == 'cleanup_end' and n.meta.get('how') == 'exc':
+            if any(exception_escapes(g, e, seen) for e in g.succ[n.id] if e.label == 'exc'):
+                return True
+            continue
+        if n.kind == 'except' and n is not d:
+            continue
+        for e in g.succ[n.id]:
+            if e.label != 'exc':
+                stack.append(e.dst)
+    return False
